@@ -114,6 +114,20 @@ fn check_allowed_values(value: Value, av_evaluator: Option<&Evaluator>) -> Value
 }
 
 ///
+/// Checks the items of a collection against the allowed values, these constrain every single item,
+/// a collection containing an item that is not allowed does not conform.
+fn check_allowed_values_of_items(values: Values, av_evaluator: Option<&Evaluator>) -> Value {
+  if av_evaluator.is_some() {
+    for item_value in values.as_vec() {
+      if check_allowed_values(item_value.clone(), av_evaluator).is_null() && !item_value.is_null() {
+        return value_null!("value not allowed");
+      }
+    }
+  }
+  Value::List(values)
+}
+
+///
 fn build_simple_type_evaluator(feel_type: FeelType, av_evaluator: Option<Evaluator>) -> Result<ItemDefinitionEvaluatorFn> {
   ///
   fn build_string_evaluator(av_evaluator: Option<Evaluator>) -> ItemDefinitionEvaluatorFn {
@@ -264,7 +278,7 @@ fn build_collection_of_simple_type_evaluator(feel_type: FeelType, av_evaluator: 
             return value_null!("item definition evaluator (CollectionOfSimpleType): expected string");
           }
         }
-        check_allowed_values(Value::List(evaluated_values), av_evaluator.as_ref())
+        check_allowed_values_of_items(evaluated_values, av_evaluator.as_ref())
       } else {
         value_null!("item definition evaluator (CollectionOfSimpleType): expected list")
       }
@@ -282,7 +296,7 @@ fn build_collection_of_simple_type_evaluator(feel_type: FeelType, av_evaluator: 
             return value_null!("item definition evaluator (CollectionOfSimpleType): expected number");
           }
         }
-        check_allowed_values(Value::List(evaluated_values), av_evaluator.as_ref())
+        check_allowed_values_of_items(evaluated_values, av_evaluator.as_ref())
       } else {
         value_null!("item definition evaluator (CollectionOfSimpleType): expected list")
       }
@@ -300,7 +314,7 @@ fn build_collection_of_simple_type_evaluator(feel_type: FeelType, av_evaluator: 
             return value_null!("item definition evaluator (CollectionOfSimpleType): expected boolean");
           }
         }
-        check_allowed_values(Value::List(evaluated_values), av_evaluator.as_ref())
+        check_allowed_values_of_items(evaluated_values, av_evaluator.as_ref())
       } else {
         value_null!("item definition evaluator (CollectionOfSimpleType): expected list")
       }
@@ -318,7 +332,7 @@ fn build_collection_of_simple_type_evaluator(feel_type: FeelType, av_evaluator: 
             return value_null!("item definition evaluator (CollectionOfSimpleType): expected date");
           }
         }
-        check_allowed_values(Value::List(evaluated_values), av_evaluator.as_ref())
+        check_allowed_values_of_items(evaluated_values, av_evaluator.as_ref())
       } else {
         value_null!("item definition evaluator (CollectionOfSimpleType): expected list")
       }
@@ -336,7 +350,7 @@ fn build_collection_of_simple_type_evaluator(feel_type: FeelType, av_evaluator: 
             return value_null!("item definition evaluator (CollectionOfSimpleType): expected time");
           }
         }
-        check_allowed_values(Value::List(evaluated_values), av_evaluator.as_ref())
+        check_allowed_values_of_items(evaluated_values, av_evaluator.as_ref())
       } else {
         value_null!("item definition evaluator (CollectionOfSimpleType): expected list")
       }
@@ -354,7 +368,7 @@ fn build_collection_of_simple_type_evaluator(feel_type: FeelType, av_evaluator: 
             return value_null!("item definition evaluator (CollectionOfSimpleType): expected date and time");
           }
         }
-        check_allowed_values(Value::List(evaluated_values), av_evaluator.as_ref())
+        check_allowed_values_of_items(evaluated_values, av_evaluator.as_ref())
       } else {
         value_null!("item definition evaluator (CollectionOfSimpleType): expected list")
       }
@@ -372,7 +386,7 @@ fn build_collection_of_simple_type_evaluator(feel_type: FeelType, av_evaluator: 
             return value_null!("item definition evaluator (CollectionOfSimpleType): expected days and time duration");
           }
         }
-        check_allowed_values(Value::List(evaluated_values), av_evaluator.as_ref())
+        check_allowed_values_of_items(evaluated_values, av_evaluator.as_ref())
       } else {
         value_null!("item definition evaluator (CollectionOfSimpleType): expected list")
       }
@@ -390,7 +404,7 @@ fn build_collection_of_simple_type_evaluator(feel_type: FeelType, av_evaluator: 
             return value_null!("item definition evaluator (CollectionOfSimpleType): expected months and years duration");
           }
         }
-        check_allowed_values(Value::List(evaluated_values), av_evaluator.as_ref())
+        check_allowed_values_of_items(evaluated_values, av_evaluator.as_ref())
       } else {
         value_null!("item definition evaluator (CollectionOfSimpleType): expected list")
       }
@@ -419,7 +433,7 @@ fn build_collection_of_referenced_type_evaluator(type_ref: String, av_evaluator:
         for item_value in values.as_vec() {
           evaluated_values.add(evaluator(item_value, evaluators));
         }
-        check_allowed_values(Value::List(evaluated_values), av_evaluator.as_ref())
+        check_allowed_values_of_items(evaluated_values, av_evaluator.as_ref())
       } else {
         value_null!("no evaluator defined for type reference '{}'", type_ref)
       }
@@ -457,7 +471,7 @@ fn build_collection_of_component_type_evaluator(item_definition: &ItemDefinition
           return value_null!("expected context, actual type is '{}' in value '{}'", item_value.type_of(), item_value);
         }
       }
-      check_allowed_values(Value::List(evaluated_values), av_evaluator.as_ref())
+      check_allowed_values_of_items(evaluated_values, av_evaluator.as_ref())
     } else {
       value_null!("expected list, actual type is '{}' in value '{}'", value.type_of(), value)
     }
